@@ -47,6 +47,7 @@ type vfSched struct {
 	parkSeq  int
 	taskSeq  int
 	stopping bool
+	bgStop   bool // background product loops exit at their next yield (the run itself goes on)
 	concur   bool // parking enabled (only while a concurrent group is being run)
 
 	tape     []int
@@ -94,7 +95,7 @@ func (s *vfSched) yield(label string) {
 		vfRaceOff()
 		s.mu.Lock()
 		s.bg[vfGoid()] = true
-		stop := s.stopping
+		stop := s.stopping || s.bgStop
 		s.mu.Unlock()
 		vfRaceOn()
 		if stop {
